@@ -374,6 +374,23 @@ func c20Judge(res *Result, tally *c20Tally, s *c20Script, real []pkglint.VerifC2
 			return
 		}
 		ev := events[i]
+		// C20_hit_same_options on the real cache: FileCache.hits goes up exactly when the
+		// model says the file is cached with exactly these options
+		if s.Ops[i].Kind == "L" && has("hit") != (ev&1 != 0) && !reported {
+			reported = true
+			pre := &c20Script{Mode: s.Mode, Cap: s.Cap, Files: s.Files, Keys: s.Keys, Ops: s.Ops[:i+1]}
+			which := "hit-where-the-model-misses"
+			if ev&1 != 0 {
+				which = "miss-where-the-model-hits"
+			}
+			res.AddViolation(Violation{Key: "C20/correspondence/cache-hit/" + which,
+				What: fmt.Sprintf("the Load at step %d of [%s] (mode %s, capacity %d): FileCache.hits went up: %v, the model (hit iff an entry with exactly the requested options exists): %v; the lines returned agree with the model",
+					i, strings.Join(s.opStrings()[:i+1], " "), c20ModeName[s.Mode], s.Cap, has("hit"), ev&1 != 0),
+				FoundInput: false, Size: i + 1,
+				Replay: pre.replay(map[string]any{"position": i, "real": ob.Token,
+					"broken": "correspondence FileCache.Get hit condition = Model.FileCache.get (e_opts e = o), C20_hit_same_options"})})
+			return
+		}
 		if ev&(1|2|4|16) != 0 {
 			nontrivial = true
 		}
